@@ -9,8 +9,8 @@ tvars == <<vars, l, bad>>
 Ev == TraceLog[l]
 DestC == <<"r", "d">>
 ChildOfDest(p) == Len(p) = Len(DestC) + 1 /\ SubSeq(p, 1, Len(DestC)) = DestC
+\* (a run that ends uncleanly is C07's subject; here only where files appear and whether the image changed)
 Judge(ev) == /\ ev.image_same = 1
-             /\ ev.clean = 1
              /\ IF ev.extracting = 1 THEN \A i \in 1..Len(ev.created) : ChildOfDest(ev.created[i])
                 ELSE Len(ev.created) = 0
              /\ Len(ev.changed) = 0            \* no pre-existing file was modified or removed
